@@ -210,6 +210,11 @@ struct ResolveContext<'a> {
     errors: Vec<Error>,
     /// Lexically scoped local bindings (innermost scope at the end)
     local_bindings: Vec<HashSet<Symbol>>,
+    /// For each scope in `local_bindings`: was it opened by a top-level definition
+    /// (a global `fn`/`let`, possibly a module member) rather than inside a function body?
+    toplevel_scopes: Vec<bool>,
+    /// True while walking the chain of top-level definitions itself.
+    at_toplevel: bool,
 }
 
 impl<'a> ResolveContext<'a> {
@@ -225,6 +230,8 @@ impl<'a> ResolveContext<'a> {
             file_path,
             errors: Vec::new(),
             local_bindings: Vec::new(),
+            toplevel_scopes: Vec::new(),
+            at_toplevel: true,
         }
     }
 
@@ -234,11 +241,17 @@ impl<'a> ResolveContext<'a> {
     }
 
     fn push_scope(&mut self) {
+        self.push_scope_of(false);
+    }
+
+    fn push_scope_of(&mut self, toplevel_definition: bool) {
         self.local_bindings.push(HashSet::new());
+        self.toplevel_scopes.push(toplevel_definition);
     }
 
     fn pop_scope(&mut self) {
         let _ = self.local_bindings.pop();
+        let _ = self.toplevel_scopes.pop();
     }
 
     fn bind_local(&mut self, symbol: Symbol) {
@@ -259,6 +272,17 @@ impl<'a> ResolveContext<'a> {
             .iter()
             .rev()
             .any(|scope| scope.contains(&name))
+    }
+
+    /// Is the innermost binding of `name` one made inside a function body (a parameter,
+    /// a local `let`, a match arm), as opposed to an earlier top-level definition?
+    fn is_bound_inside_function(&self, name: Symbol) -> bool {
+        self.local_bindings
+            .iter()
+            .zip(self.toplevel_scopes.iter())
+            .rev()
+            .find(|(scope, _)| scope.contains(&name))
+            .is_some_and(|(_, toplevel)| !toplevel)
     }
 
     /// Try to resolve a simple variable name through wildcard imports.
@@ -330,6 +354,14 @@ pub fn convert_qualified_names(
 }
 
 fn convert_expr(ctx: &mut ResolveContext, e_id: ExprNodeId) -> ExprNodeId {
+    // Only the continuation of a top-level definition is itself top-level.
+    let was_toplevel = std::mem::replace(&mut ctx.at_toplevel, false);
+    let result = convert_expr_inner(ctx, e_id, was_toplevel);
+    ctx.at_toplevel = was_toplevel;
+    result
+}
+
+fn convert_expr_inner(ctx: &mut ResolveContext, e_id: ExprNodeId, toplevel: bool) -> ExprNodeId {
     let loc = ctx.make_location(e_id);
 
     match e_id.to_expr().clone() {
@@ -342,7 +374,7 @@ fn convert_expr(ctx: &mut ResolveContext, e_id: ExprNodeId) -> ExprNodeId {
             // Save current context
             let prev_context = std::mem::take(&mut ctx.current_module_context);
 
-            ctx.push_scope();
+            ctx.push_scope_of(toplevel);
             ctx.bind_local(name);
 
             // Update context if this function has a module context
@@ -355,6 +387,7 @@ fn convert_expr(ctx: &mut ResolveContext, e_id: ExprNodeId) -> ExprNodeId {
             // Restore context
             ctx.current_module_context = prev_context;
 
+            ctx.at_toplevel = toplevel;
             let new_then = then.map(|t| convert_expr(ctx, t));
             ctx.pop_scope();
             Expr::LetRec(id, new_body, new_then).into_id(loc)
@@ -384,8 +417,9 @@ fn convert_expr(ctx: &mut ResolveContext, e_id: ExprNodeId) -> ExprNodeId {
             ctx.current_module_context = prev_context;
 
             let new_then = then.map(|t| {
-                ctx.push_scope();
+                ctx.push_scope_of(toplevel);
                 ctx.bind_pattern_locals(&pat.pat);
+                ctx.at_toplevel = toplevel;
                 let converted = convert_expr(ctx, t);
                 ctx.pop_scope();
                 converted
@@ -499,6 +533,7 @@ fn convert_expr(ctx: &mut ResolveContext, e_id: ExprNodeId) -> ExprNodeId {
         }
         Expr::Then(e, then) => {
             let new_e = convert_expr(ctx, e);
+            ctx.at_toplevel = toplevel;
             let new_then = then.map(|t| convert_expr(ctx, t));
             Expr::Then(new_e, new_then).into_id(loc)
         }
@@ -611,7 +646,11 @@ fn is_operator_lowered_builtin_name(name: Symbol) -> bool {
 /// Convert a simple variable reference, resolving explicit `use` aliases and wildcards.
 fn convert_var(ctx: &mut ResolveContext, name: Symbol, loc: Location) -> ExprNodeId {
     // Lexical local bindings must take precedence over imported aliases or wildcards.
-    if ctx.is_locally_bound(name) {
+    // Inside a module, an earlier top-level definition of the same name does not hide
+    // the members of the enclosing modules: those are looked up first (below).
+    if ctx.is_locally_bound(name)
+        && (ctx.current_module_context.is_empty() || ctx.is_bound_inside_function(name))
+    {
         return Expr::Var(name).into_id(loc);
     }
 
@@ -633,6 +672,11 @@ fn convert_var(ctx: &mut ResolveContext, name: Symbol, loc: Location) -> ExprNod
             .find(|relative_mangled| ctx.name_exists(relative_mangled))
     {
         return Expr::Var(relative_mangled).into_id(loc);
+    }
+
+    // An earlier top-level definition still wins over imports.
+    if ctx.is_locally_bound(name) {
+        return Expr::Var(name).into_id(loc);
     }
 
     // Check if this is a use alias (explicit `use foo::bar` or `use foo::bar as alias`)
